@@ -7,3 +7,4 @@ def raising(title: str) -> str:
 
 def upper_dash(title: str) -> str:
     return title.upper().replace(" ", "-")
+NOT_A_FUNCTION = "importable, not callable"
